@@ -178,7 +178,7 @@ func New(seed uint64, step func() int, taskName func() string) *Kernel {
 		faulted: map[*File]bool{}, faultedFd: map[int]map[int]bool{},
 		Uses: map[int][]Use{}, siteCount: map[string]int{}, FaultsFired: map[string]int{}, Stats: map[string]int{},
 		SndBuf: 64 << 10, RcvBuf: 64 << 10,
-		ifaces: []Iface{{1, "lo"}, {2, "eth0"}, {7, "wlan7"}},
+		ifaces: []Iface{{1, "lo"}, {2, "eth0"}, {5, "6to4"}, {7, "wlan7"}},
 	}
 	active = k
 	return k
